@@ -125,7 +125,7 @@ const (
 
 	check0 = `if {{.Right}} == 0 {
 		errs = append(errs, i)
-		{{.Range}}[i] = 0
+		{{.Range}}[{{if .Index2}}{{.Index2}}{{else if and .IterName1 (eq .Range "incr")}}{{.Index1}}{{else}}i{{end}}] = 0
 		continue
 	}
 	`
